@@ -2,8 +2,9 @@
 # usage: seedrun.sh <seed id> <property>... : apply seeded/<id>/patch.diff to /repo, run the quick checks named, undo; prints which alarm
 id=$1; shift
 git -C /repo apply /verif/seeded/$id/patch.diff || { echo "$id: patch does not apply"; exit 9; }
+trap 'git -C /repo apply -R /verif/seeded/$id/patch.diff' INT TERM
 for c in "$@"; do
-  out=$(/verif/check $c quick 2>&1); rc=$?
+  out=$(timeout 1200 /verif/check $c quick 2>&1); rc=$?
   n=$(echo "$out" | grep -c "^VIOLATION")
   echo "$id $c exit=$rc violations=$n"
   echo "$out" | grep "^VIOLATION" | sed 's/.*obligation=//' | cut -c1-150 | head -5 | sed 's/^/    /'
